@@ -171,48 +171,75 @@ func checkC04(p *Prog, r *Report) {
 	// ---- NO-UNLINK-BEFORE-REPLACE ----
 	r.Rule("C04/NO-UNLINK-BEFORE-REPLACE", "outside the --delete walk the receiver unlinks a destination path only at the two type-change sites (a non-directory in the way of a directory; a non-regular entry in the way of a regular file); in particular never before a symlink or file is replaced, which must happen by atomic rename alone", 2)
 	modeFld := p.Field(pkgReceiver, "File", "Mode")
-	for _, fn := range recvFuncs {
-		if isWalkDirFunc(fn) {
-			continue
-		}
-		allCalls(fn, func(c ssa.CallInstruction) {
-			n := calleeName(c)
-			if n != "(*os.Root).Remove" && n != "(*os.Root).RemoveAll" {
-				return
-			}
-			dirBranch, regBranch, notRegularDest, notDirDest := false, false, false, false
-			for _, f := range FactsAt(c) {
-				switch x := f.Cond.(type) {
-				case *ssa.BinOp:
-					if x.Op == token.EQL && f.Val {
-						if and, ok := x.X.(*ssa.BinOp); ok && and.Op == token.AND && modeFld != nil {
-							if base, fld := loadedField(and.X); fld == modeFld && base != nil {
-								if k, isK := constInt(x.Y); isK && k == 0o040000 {
-									dirBranch = true
-								}
+	// the two halves of the type-change condition may sit in different functions
+	// (helper extraction): lift each through the call chains separately
+	entryTypeFact := func(in ssa.Instruction) bool { // list entry is a directory / a regular file
+		for _, f := range FactsAt(in) {
+			switch x := f.Cond.(type) {
+			case *ssa.BinOp:
+				if x.Op == token.EQL && f.Val {
+					if and, ok := x.X.(*ssa.BinOp); ok && and.Op == token.AND && modeFld != nil {
+						if base, fld := loadedField(and.X); fld == modeFld && base != nil {
+							if k, isK := constInt(x.Y); isK && k == 0o040000 {
+								return true
 							}
 						}
 					}
-				case *ssa.Call:
-					cn := calleeName(x)
-					if cn == "(io/fs.FileMode).IsRegular" {
-						if inner, ok := x.Common().Args[0].(*ssa.Call); ok {
-							if sc := inner.Common().StaticCallee(); sc != nil && sc.Name() == "FileMode" && f.Val {
-								regBranch = true
-							}
-							if inner.Common().IsInvoke() && inner.Common().Method.Name() == "Mode" && !f.Val {
-								notRegularDest = true
-							}
+				}
+			case *ssa.Call:
+				if calleeName(x) == "(io/fs.FileMode).IsRegular" && f.Val {
+					if inner, ok := x.Common().Args[0].(*ssa.Call); ok {
+						if sc := inner.Common().StaticCallee(); sc != nil && sc.Name() == "FileMode" {
+							return true
 						}
-					}
-					if x.Common().IsInvoke() && x.Common().Method.Name() == "IsDir" && !f.Val {
-						notDirDest = true
 					}
 				}
 			}
-			ok := (dirBranch && notDirDest) || (regBranch && notRegularDest)
-			r.Cond(ok, "C04/NO-UNLINK-BEFORE-REPLACE", funcKey(fn)+" → "+n, p.Pos(instrPos(c)), "a destination path is unlinked outside the two type-change sites: the path is absent until (and unless) its replacement succeeds")
-		})
+		}
+		return false
+	}
+	destWrongType := func(in ssa.Instruction) bool { // what exists at the destination is of another type
+		for _, f := range FactsAt(in) {
+			x, ok := f.Cond.(*ssa.Call)
+			if !ok || f.Val {
+				continue
+			}
+			if calleeName(x) == "(io/fs.FileMode).IsRegular" {
+				if inner, ok := x.Common().Args[0].(*ssa.Call); ok && inner.Common().IsInvoke() && inner.Common().Method.Name() == "Mode" {
+					return true
+				}
+			}
+			if x.Common().IsInvoke() && x.Common().Method.Name() == "IsDir" {
+				return true
+			}
+		}
+		return false
+	}
+	isUnlink := func(c ssa.CallInstruction) (string, bool) {
+		if isWalkDirFunc(c.Parent()) {
+			return "", false
+		}
+		n := calleeName(c)
+		if n == "(*os.Root).Remove" || n == "(*os.Root).RemoveAll" {
+			return n, true
+		}
+		return "", false
+	}
+	scopeR := inPkg(pkgReceiver)
+	unl, needA := g.Lift(GuardSpec{InScope: scopeR, IsSink: isUnlink, Guarded: entryTypeFact}, recvFuncs)
+	_, needB := g.Lift(GuardSpec{InScope: scopeR, IsSink: isUnlink, Guarded: destWrongType}, recvFuncs)
+	ents := entriesOf(g, recvFuncs, scopeR)
+	for _, u := range unl {
+		bad := ""
+		for _, e := range ents {
+			if ch, ok := needA[e][u.Instr]; ok && bad == "" {
+				bad = "no entry-type test (directory / regular file) on the chain " + strings.Join(ch, " → ")
+			}
+			if ch, ok := needB[e][u.Instr]; ok && bad == "" {
+				bad = "no test that the existing destination object is of the wrong type on the chain " + strings.Join(ch, " → ")
+			}
+		}
+		r.Cond(bad == "", "C04/NO-UNLINK-BEFORE-REPLACE", funcKey(u.Fn)+" → "+u.Label, p.Pos(instrPos(u.Instr)), "a destination path is unlinked outside the two type-change sites: the path is absent until (and unless) its replacement succeeds; "+bad)
 	}
 
 	// ---- FIRST-ERROR-ABORTS ----
